@@ -336,6 +336,14 @@ def conn_slow_writes(rng):
     return spec
 
 
+def conn_late_write_fault(rng):
+    """C01 flavour judged by the monitor only: the driver accepts the bytes of the k-th line and raises afterwards (write time-out / IO error);
+    nothing may appear on the wire a second time"""
+    spec = conn_traffic(rng, max_threads=2, max_cmds=12, long_idle=False)
+    spec["write_fault_late"] = {"n": rng.randint(1, 10), "exc": rng.choice(["SerialException", "SerialTimeoutException"])}
+    return spec
+
+
 def conn_busy_callback(rng):
     """C12 flavour: a message callback that is still running (for seconds) when the keep-alive timer expires"""
     t_unsol = rng.choice([29.2, 29.8, 30.0, 30.05, 59.9, 60.2])
@@ -538,4 +546,30 @@ def subunit_wire(rng, T, writes=True):
         for o in ops:
             if o[0] == "until":
                 o[1] = round(o[1] + shift, 3)
-    return {"kind": "subunit_wire", "class": c["py"], "expect_id": c["id"], "device": dev, "ops": ops, "initialize": init, "settle": 4.0}
+    spec = {"kind": "subunit_wire", "class": c["py"], "expect_id": c["id"], "device": dev, "ops": ops, "initialize": init, "settle": 4.0}
+    if writes and not init and rng.random() < 0.12:
+        spec["write_fault_late"] = {"n": rng.randint(3, 8), "exc": rng.choice(["SerialException", "SerialTimeoutException"])}
+    return spec
+
+
+def conn_chunked(rng, T):
+    """C02 through the real reader thread: lines arrive in pieces, possibly seconds apart (so that sender-side activity such as the keep-alive
+    timer falls between two pieces of one line); one registered callback records what is delivered"""
+    from .props import c02
+    lines = [l for l in c02.gen_lines(rng, T) if len(l) < 2000][:10]
+    lines += [f"@MAIN:ZONENAME=end{rng.randint(0, 99)}"]
+    unsol = []
+    t = rng.choice([0.5, 28.0, 29.5])
+    for l in lines:
+        if "SYS:MODELNAME" in l or "SYS:VERSION" in l:
+            continue
+        unsol.append([round(t, 3), l])
+        t += rng.choice([0.0, 0.01, 0.3, 1.0, 5.0])
+    dev = {"type": "scripted", "latency": 0.02, "unsolicited": unsol, "chunk": rng.randrange(1, 10 ** 6),
+           "chunk_gaps": rng.choice([[0.0002], [0.0002, 0.05, 0.5], [0.0002, 0.5, 2.0, 31.0], [29.0, 31.0, 0.1]])}
+    t0 = []
+    for i in range(rng.randint(0, 3)):
+        t0.append(["sleep", rng.choice([0.2, 1.0, 10.0])])
+        t0.append(["put", "MAIN", "VOL", f"-{20 + i}.0"])
+    t0 += [["sleep", t + 31.0 * 4 * (len(unsol) + 1) if max(dev["chunk_gaps"]) > 20 else t + 40.0], ["connected"]]
+    return {"kind": "conn", "device": dev, "log_size": 0, "threads": [t0], "pre_register": [1], "final_wait": 0}
